@@ -215,7 +215,8 @@ def k_rid_history(ctx, seed):
     obj = mk_rid(v, r.choice(ROUTES))
     trail = []
     for step in range(r.randrange(2, 8)):
-        op = r.choice(("as_u32", "hash", "eq", "dict", "pack", "set_psc", "set_packet_id", "set_version"))
+        op = r.choice(("as_u32", "hash", "eq", "dict", "pack", "set_psc", "set_packet_id", "set_version", "set_psc.seq_count", "set_psc.seq_flags", "set_packet_id.apid",
+                       "set_packet_id.ptype", "set_packet_id.sec_header_flag"))
         trail.append(op)
         if op == "as_u32":
             obj.as_u32()
@@ -235,6 +236,26 @@ def k_rid_history(ctx, seed):
             w = r.getrandbits(13)
             obj.tc_packet_id = sp.PacketId.from_raw(w)
             v = (v & 0xE000FFFF) | (w << 16)
+        elif op == "set_psc.seq_count":          # nested objects updated in place
+            w = r.getrandbits(14)
+            obj.tc_psc.seq_count = w
+            v = (v & 0xFFFFC000) | w
+        elif op == "set_psc.seq_flags":
+            w = r.getrandbits(2)
+            obj.tc_psc.seq_flags = sp.SequenceFlags(w)
+            v = (v & 0xFFFF3FFF) | (w << 14)
+        elif op == "set_packet_id.apid":
+            w = r.getrandbits(11)
+            obj.tc_packet_id.apid = w
+            v = (v & 0xF800FFFF) | (w << 16)
+        elif op == "set_packet_id.ptype":
+            w = r.getrandbits(1)
+            obj.tc_packet_id.ptype = sp.PacketType(w)
+            v = (v & ~(1 << 28)) | (w << 28)
+        elif op == "set_packet_id.sec_header_flag":
+            w = r.getrandbits(1)
+            obj.tc_packet_id.sec_header_flag = bool(w)
+            v = (v & ~(1 << 27)) | (w << 27)
         else:
             w = r.getrandbits(3)
             obj.ccsds_version = w
